@@ -41,6 +41,11 @@ CHECKS = {
          "Every program (all definition sequences up to a length bound over a call alphabet with failing/flaky/optional/cyclic factory shapes, plus seeded random programs on four construction paths incl. the goatapp mock application) is run against the real container and against a model written from the statement; the event traces (ok/error class, instance identity, per-factory invocation counts, acceptance of definitions) must match, and model-independent checks (identity never changes, no re-run after an instance, explicit beats default, late definitions refused, cycles end in an error) run on the container side. Held on the programs executed.",
          "single goroutine (the statement does not promise concurrent use); duplicate same-class definitions follow the implementation's accept/refuse answer",
          "DESIGN.md §5 C10"),
+ "C12": ("exploration",
+         "stress workload with recover/exit supervision and conservation oracle (every appended unique error retained exactly once), bounded-progress check on parent Wait, Go race detector",
+         "2..64 goroutines released together issue PRNG-chosen AppendError(unique)/Kill/Stop/IsDone/Err/Errors/Done on plain contexts, isolated contexts, scopes and shared/isolated child scopes under GOMAXPROCS 1/2/4/16; after the join every appended error must be retained exactly once (plus one context.Canceled per Kill), Err/Wait/Close must report an error iff something was appended, Done must be closed, a shared child must fail its parent and an isolated one must not. Children are created and closed while and after the parent ends (also through real terminal commands on a killed IO context): no panic, parent Wait returns. Race reports in contextscope and scope decide. Held on the schedules produced.",
+         "'done fires exactly once' is observable only as absence of a double-close panic; WaitGroup misuse (Wait concurrent with first Add) not exercised",
+         "DESIGN.md §5 C12"),
  "C13": ("exploration",
          "reference-model monitor for the overlay, conservation/permutation oracles and porcupine linearizability checking of recorded histories for locked sections, Go race detector",
          "Overlay: all histories up to a length bound and random histories on scope trees against a chain-of-maps model, whole visible state compared after every step. Atomicity: 2..32 goroutines run locked read-modify-write, transfer and audit sections against plain readers/writers/lockers under GOMAXPROCS 1..16; final counter = sections, values read form a permutation, one holder at a time, sums conserved, and recorded mixed histories are checked with porcupine per key (rmw spanning LockData..Commit as one operation). Get-or-create services called from many goroutines must return one instance. Race reports in datascope and the three services decide. Held on the histories and interleavings produced.",
@@ -66,6 +71,11 @@ CHECKS = {
          "ReadArguments is run on every byte string up to a length bound over the 9 significant bytes (no panic, bounded reads, exact expected result on the quote-free sub-language) and on scripts rendered from random argument lists by a reference quoting function; InjectArgs mapping compared with an independent expectation. Held on the enumerated/sampled inputs only.",
          "trusts the reference renderer/simple splitter in harness/props/c17; escape forms the statement does not define are checked for totality only",
          "DESIGN.md §5 C17"),
+ "C18": ("exploration",
+         "runtime oracle executing the generated start-up scripts with the real /bin/sh: variable dumps, child-process environment, canary side-effect files, independence pairs; bounded-exhaustive values and names",
+         "The scripts of the container sandbox (dcmd.InitSequence) and of the SSH sandbox (private builder exported under the verif tag) are executed by /bin/sh in an empty scratch directory with a scrubbed environment; every variable is dumped and read from a child's /proc/self/environ and must equal the configured value (minus trailing newlines); no canary file may appear, no foreign variable may change, a map re-run with one variable changed may differ only there; values are enumerated exhaustively over 11 shell-significant characters up to length 4 (5 thorough) and drawn randomly with hostile fragments, including terminator guesses built from delimiters seen earlier; names are enumerated for rejection of non-identifiers. Held on the values executed, for dash.",
+         "decided for the /bin/sh of this image (dash); NUL bytes and all-capital names special to the shell are not generated",
+         "DESIGN.md §5 C18"),
 }
 
 NOT_APPLICABLE = {
